@@ -165,7 +165,9 @@ EXTRA = {
            "have been cleared no send is registered and nobody is parked, also while a graceful close is in progress. "
            "A failing handler must end the connection without waiting for another event (clause 8).",
     "C10": " The glue to the in-flight limiter (impl SizedRequest for Decoded) is modelled (Model/Sized.v, engines "
-           "sized3/sized5): a PUBLISH with an incomplete payload is flagged whatever piece came with the header.",
+           "sized3/sized5): a PUBLISH with an incomplete payload is flagged whatever piece came with the header. A reader "
+           "that abandons a streamed payload leaves the connection intact for every way of cutting the payload into "
+           "pieces (engines plstop3/plstop5, operation 10, clauses 31/32).",
     "C12": " Whole servers when several frames arrive in ONE read: engines inb3b/inb5b (Model/InboundBurst.v, "
            "Props/C12burst.v: the same server model plus a held write), scans P19 (v3: never more handlers at once than "
            "max_receive), P20 (everything handled once the handlers finish). The limiter's view of decoded items (what wf_stream assumes) is tied to the codec by engines sized3/sized5; "
